@@ -7,6 +7,23 @@ NOTES = ("All checks: bin/check <id>. Each run regenerates coq/Gen from /repo, r
          "Known findings: KNOWN_FINDINGS.txt.")
 NOT_APPLICABLE = {}
 CLAIMED = {
+    "C05": {
+        "text": "Round-trip theorems, for all data, lengths and random choices: the external-key layer, key-combined byte literals, simple, swap (repeated and "
+                "coinciding positions included), seed, shuffle (any permutation), the string junk wrapper and the byte-array copy. The model decoders are tied "
+                "to the code by reading the source text each obfuscator emits back into the model's artefact types and evaluating the decoder in Coq, while the "
+                "Go compiler runs the same blocks; a generated program with every literal form and context is built with `garble -literals`. Partial: split's "
+                "decoder is modelled and checked per instance but its general theorem is not proved; proxy.go is only exercised by the real build.",
+        "note": "Trusted: Coq kernel (vm_compute for the 3x256x256 operator tables); lit_extract.py; the Go compiler for the compiled batch. No axioms.",
+        "technique": "Coq round-trip proofs of the five codecs + in-Coq decoding of artefacts read from the emitted source + compiled batch + e2e literal program",
+    },
+    "C09": {
+        "text": "Theorems: the selection window is exactly 8..2048 over the constants in the source now; an encoded byte equals the plaintext byte iff the key "
+                "byte is neutral, so `simple` repeats plaintext at a position iff its key byte is zero. Tied by the constants translator and by scanning the "
+                "binary of a generated program (unique markers in every literal form and syntactic position, exempt contexts included) built with "
+                "`garble -literals -seed`, also for the seed value itself. Partial: absence from the binary is scanned on built instances, not proved.",
+        "note": "Trusted: Coq kernel; translator; byte scan of built instances. No axioms.",
+        "technique": "Coq proof of the window and key-neutrality facts over regenerated constants + marker scan of a real -literals binary",
+    },
     "C02": {
         "text": "Theorems: every var/type/field (and every non-exempt func/method) of an obfuscated package is written under a name that is pure digest "
                 "text; the linker command line is characterised exactly (-importcfg and -buildid replaced in place, -X duplicates, buildVersion override, "
